@@ -253,7 +253,7 @@ DesignData(cv, dst, v) ==
 Design(api, src, dst, v) ==
   LET r == DesignData(ConverterOf(api, src), dst, v) IN
   IF r.r = "ok" \/ api = "data" THEN r
-  ELSE IF src = dst THEN ObsOk(v) ELSE ObsRefused
+  ELSE IF src = dst /\ src # "l" THEN ObsOk(v) ELSE ObsRefused     \* 'l' has no type traits: BadArgument
 
 (***************************************************************************)
 (* Tier 1: judgement of one observed conversion                            *)
@@ -414,10 +414,12 @@ DesignText(api, dst, base, chars) ==
 (* actions: one per public call family; obs.exp is what binding A compares *)
 Init == obs = [a |-> "init", arg |-> [x |-> 0], exp |-> [x |-> 0]]
 
+CanonObs(o) == [o EXCEPT !.w = Canon(@)]
+
 (* mpt_value_convert / mpt_data_convert_* / mpt_iterator_consume *)
 Conv(api, src, dst, v) ==
   obs' = [a |-> "conv", arg |-> [api |-> api, src |-> src, dst |-> dst, v |-> Canon(v)],
-          exp |-> [allowed |-> Allowed(dst, v), design |-> Design(api, src, dst, v)]]
+          exp |-> [allowed |-> Allowed(dst, v), design |-> CanonObs(Design(api, src, dst, v))]]
 
 (* expectation for every possible number of consumed characters *)
 PrefixExp(dst, chars, base, n) ==
@@ -432,7 +434,7 @@ PrefixExp(dst, chars, base, n) ==
 Text(api, dst, base, chars) ==
   obs' = [a |-> "text", arg |-> [api |-> api, dst |-> dst, base |-> base, chars |-> chars],
           exp |-> [byused |-> [n \in 1..(Len(chars) + 1) |-> PrefixExp(dst, chars, base, n - 1)],
-                   design |-> IF IsIntType(dst) THEN DesignText(api, dst, base, chars) ELSE TObsRefused]]
+                   design |-> IF IsIntType(dst) THEN CanonObs(DesignText(api, dst, base, chars)) ELSE TObsRefused]]
 
 (* invariants: Tier 2 implies Tier 1 *)
 DesignSound ==
